@@ -64,6 +64,21 @@ Example ex_recipe_ok : forallb ritem_ok ex_recipe = true
                 (MkRC [] [] [] []) ex_recipe = DROk [bs "sys-apps/foo"; bs "app-misc/eix"; bs "x/y"].
 Proof. vm_compute. split; reflexivity. Qed.
 
+(* a recipe whose arguments hold white space inside: two blanks, a tab, \v, NBSP (C2 A0), EM SPACE
+   (E2 80 83) -- all of it belongs to the value; the sibling "/srv/build root" is another directory *)
+Definition ex_ws_val : bytes :=
+  (bs "/srv/build  root" ++ [c_tab; nb 11] ++ bs "x" ++ [nb 194; nb 160] ++ bs "y" ++ [nb 226; nb 128; nb 131] ++ bs "z")%list.
+Definition ex_recipe_ws : list ritem :=
+  [RLine (MkQ (bs " ") (bs "root") (bs "  ") ex_ws_val [c_tab; c_sp])].
+Example ex_recipe_ws_ok : forallb ritem_ok ex_recipe_ws = true
+  /\ parse_recipe_line (ritem_render (hd (RComment []) ex_recipe_ws)) = (bs "root", ex_ws_val)
+  /\ doc_recipe (MkEnv (bs "/cwd") [ex_ws_val; bs "/srv/build root x y z"]
+                       [((ex_ws_val ++ bs "/etc/portage/make.profile")%list, [bs "sys-apps/right"]);
+                        (bs "/srv/build root x y z/etc/portage/make.profile", [bs "sys-apps/wrong"])] [])
+                (MkRC [] [] [] []) ex_recipe_ws = DROk [bs "sys-apps/right"]
+  /\ rline_ok (MkQ [] (bs "root") (bs " ") (bs "/x" ++ [nb 194; nb 160])%list []) = false.
+Proof. vm_compute. repeat split; reflexivity. Qed.
+
 Example ex_raw_bad : raw_bad (bs "  profile  ") = true /\ raw_bad (bs "bogus 1") = true.
 Proof. vm_compute. split; reflexivity. Qed.
 
